@@ -145,9 +145,6 @@ impl Property for C14 {
                         // descriptor values are exempt from every comparison (C20); the model just cannot tell the ends apart
                         return CaseOut::discard("random-descriptor-collision");
                     }
-                    if rfd < 1024 || wfd < 1024 {
-                        return CaseOut::discard("pipe-descriptor-below-1024-collides-with-foreign-range");
-                    }
                     pipes.push((rfd, wfd, VecDeque::new()));
                 }
                 Op::Write { pipe, n: len, seed } => {
@@ -281,6 +278,10 @@ impl Property for C14 {
                     if *bad_buf != 0 {
                         classes.push("foreign-descriptor-awkward-buffer");
                     }
+                    // "not a pipe end" is decided when the call is made: whatever numbering the handler uses,
+                    // a candidate that happens to be a pipe end right now is replaced by the next free number
+                    let is_end = |f: u64| pipes.iter().any(|p| p.0 == f || p.1 == f);
+                    let fd = &(*fd..*fd + 64).find(|f| !is_end(*f)).unwrap_or(*fd);
                     let (r, ev) = sys(&mut ax, if *write { 1 } else { 0 }, *fd, buf, *len);
                     classes.push("foreign-descriptor");
                     if let Api::Panic(p) = &r {
